@@ -1,3 +1,5 @@
 import builtins as _b
 _b.__dict__.setdefault('_ol_import_log', []).append(__name__)
 sub_attr = 'sub'
+sub_zero = 0.0
+sub_empty = ()
